@@ -59,6 +59,7 @@ func main() {
 	fs.IntVar(&o.Resume, "resume", 0, "crash/fault: continue only this many blocks past the injection block and compare with the reference state of that height (0 = to the tip)")
 	fs.BoolVar(&o.Keep, "keep", false, "crash/fault: keep the directories of passing points")
 	fs.StringVar(&o.Kind, "kind", "both", "fault: sql, rpc or both")
+	retryStmt := fs.String("stmt", "pn_sync_version", "retryall: the first attempt at every block fails at the first block statement containing this text")
 	fs.IntVar(&o.Pairs, "pairs", 0, "fault: additionally this many sampled (sql, rpc) pairs within one block")
 	at := fs.String("at", "all", "restart: all or h1,h2,a-b")
 	multi := fs.Bool("multi", true, "restart: one more run that restarts at all chosen heights")
@@ -110,6 +111,8 @@ func main() {
 		os.Exit(drv.CmdFault(c, o))
 	case "restart":
 		os.Exit(drv.CmdRestart(c, *at, *multi, *perHeight))
+	case "retryall":
+		os.Exit(drv.CmdRetryAll(c, *retryStmt))
 	case "apiload":
 		os.Exit(drv.CmdAPILoad(c, a))
 	case "history":
@@ -119,7 +122,7 @@ func main() {
 }
 
 func usage() {
-	fmt.Fprintln(os.Stderr, "usage: runprop det|crash|fault|restart|apiload|history|scenario -work <dir> -scenario <name> -seed <n> [flags]")
+	fmt.Fprintln(os.Stderr, "usage: runprop det|crash|fault|retryall|restart|apiload|history|scenario -work <dir> -scenario <name> -seed <n> [flags]")
 	os.Exit(2)
 }
 
